@@ -15,7 +15,7 @@ from textwrap import dedent
 from types import TracebackType
 
 from .selector import Element, check_element
-from .tags import enter_tag, exit_tag, get_tags
+from .tags import Tag, TagSet, enter_tag, exit_tag, get_tags
 from .utils import ABSENT, DictPile
 
 _IDX = count()
@@ -434,7 +434,16 @@ class PteraTransformer(NodeTransformer):
     def make_interaction(self, target, ann, value, orig=None, expression=False):
         """Create code for setting the value of a variable."""
         if ann and isinstance(target, ast.Name):
-            self.annotated[target.id] = self._evaluate(ann)
+            annotation = self._evaluate(ann)
+            previous = self.annotated.get(target.id, ABSENT)
+            if isinstance(previous, (Tag, TagSet)) and previous != annotation:
+                # The variable is annotated more than once: it may carry
+                # the tags of any of its annotations
+                if isinstance(annotation, (Tag, TagSet)):
+                    annotation = previous & annotation
+                else:
+                    annotation = previous
+            self.annotated[target.id] = annotation
             self.linenos[target.id] = target.lineno
         ann_arg = ann if ann else ast.Constant(value=None)
         value_arg = self._get("ABSENT") if value is None else value
